@@ -5,6 +5,8 @@ ANCHORS = K.ANCHORS
 
 
 def run(ctx, res):
+    from . import genarith
+    genarith.regenerate(ctx.pid, "audit", res)   # regenerated tie: overstatement assorter, u bound, tally margins (DESIGN 2.1)
     nw = ctx.n(320, 4000)
     pool, cmp_, spv, viol, runs, stats, facts = K.run_worlds(ctx, nw)
     K.correspondences(ctx, res, [], cmp_, spv)
